@@ -239,7 +239,7 @@ func cmdCheck(args []string) int {
 	violations := 0
 	faults := 0
 	var lines []string
-	nObl, nDis, nCover, nCoverOK := 0, 0, 0, 0
+	nObl, nDis, nCover, nCoverOK, nCoverWeak := 0, 0, 0, 0, 0
 	byBackend := map[string]int{}
 	solverSecs := 0.0
 	var samples []any
@@ -294,6 +294,8 @@ func cmdCheck(args []string) int {
 			switch r.Status {
 			case "cover-ok":
 				nCoverOK++
+			case "cover-ok-weak":
+				nCoverWeak++
 			case "cover-failed":
 				if kf := isKnown(o.Name); kf != nil {
 					knownMatched = append(knownMatched, o.Name)
@@ -379,7 +381,7 @@ func cmdCheck(args []string) int {
 		"functions_under_contract": funcs,
 		"by_backend":   byBackend,
 		"solver_seconds": solverSecs,
-		"cover_checks": map[string]int{"total": nCover, "sat": nCoverOK},
+		"cover_checks": map[string]int{"total": nCover, "sat": nCoverOK, "sat_without_quantified_assumptions": nCoverWeak},
 		"abstracted_functions": sortedKeys(abstracted),
 		"engine_notes": sortedKeys(notes),
 		"known_findings_matched": knownMatched,
@@ -401,8 +403,8 @@ func cmdCheck(args []string) int {
 		return 2
 	}
 	writeEvidence(*verif, *prop, &ev)
-	fmt.Printf("property %s: %d/%d obligations discharged, %d cover checks (%d sat), %d known findings, %d violations, %.1fs\n",
-		*prop, nDis, nObl, nCover, nCoverOK, len(knownMatched), violations, time.Since(t0).Seconds())
+	fmt.Printf("property %s: %d/%d obligations discharged, %d cover checks (%d sat, %d sat without quantified assumptions), %d known findings, %d violations, %.1fs\n",
+		*prop, nDis, nObl, nCover, nCoverOK, nCoverWeak, len(knownMatched), violations, time.Since(t0).Seconds())
 	if violations > 0 {
 		return 1
 	}
